@@ -242,7 +242,15 @@ def seq_equals(I, a, b):
         return _not(I.pipes.observable(a, 'ne'))
     if isinstance(b, SSeq):
         return seq_equals(I, b, a)
-    raise Unsupported('equality between a symbolic sequence and a concrete list')
+    if isinstance(a, SSeq) and isinstance(b, (list, tuple)):
+        # a sequence of unknown length against a concrete non-empty list: not decided by the rules -- an opaque Bool, as for two
+        # pipes that are not unified (an obligation that needs it fails and the witness search takes over)
+        seq_equals.n += 1
+        return z3.Bool(f'seq-eq-list({a.src.name}~{I.pipes.canon_id(a)},#{seq_equals.n})')
+    raise Unsupported('equality between a symbolic sequence and a value that is not a list')
+
+
+seq_equals.n = 0
 
 
 def str_order(I, op, a, b):
